@@ -131,6 +131,162 @@ proof fn lemma_insert_nodup(s: Seq<usize>, pos: int, x: usize)
 }
 """
 
+MS_DRAW_SPEC = r"""
+// R5: `ds.as_ref().map(|d| d.visual_line_count(.., width)).unwrap_or_default()`
+fn opt_line_count(ds: &Option<DrawState>, width: usize) -> (r: VisualLines)
+    requires width >= 1, ds matches Some(d) ==> hts(d.lines@, width as nat, d.lines.len() as int) <= usize::MAX
+    ensures r.0 as nat == (match *ds { Some(d) => hts(d.lines@, width as nat, d.lines.len() as int), None => 0 })
+{
+    match ds { Some(d) => visual_line_count(&d.lines, width), None => VisualLines::default() }
+}
+// R5: Vec::extend_from_slice (clones the lines)
+#[verifier::external_body]
+fn extend_cloned(v: &mut Vec<LineType>, src: &Vec<LineType>) ensures final(v)@ == old(v)@ + src@ { unimplemented!() }
+"""
+
+MS_ACCT_SPEC = r"""
+spec fn mlines(m: MultiStateMember) -> Seq<LineType> { match m.draw_state { Some(d) => d.lines@, None => Seq::<LineType>::empty() } }
+// the members' stored renderings in visual order (first k members)
+spec fn flat(members: Seq<MultiStateMember>, order: Seq<usize>, k: int) -> Seq<LineType> decreases k {
+    if k <= 0 { Seq::<LineType>::empty() } else { flat(members, order, k - 1) + mlines(members[order[k - 1] as int]) }
+}
+spec fn mheight(m: MultiStateMember, w: nat) -> nat { hts(mlines(m), w, mlines(m).len() as int) }
+// rows of the first k members in visual order
+spec fn zheight(members: Seq<MultiStateMember>, order: Seq<usize>, w: nat, k: int) -> nat decreases k {
+    if k <= 0 { 0 } else { zheight(members, order, w, k - 1) + mheight(members[order[k - 1] as int], w) }
+}
+// length of the maximal prefix of dropped (zombie) bars in visual order
+spec fn zprefix(members: Seq<MultiStateMember>, order: Seq<usize>, k: int) -> int decreases order.len() - k {
+    if k >= order.len() { order.len() as int } else if !members[order[k] as int].is_zombie { k } else { zprefix(members, order, k + 1) }
+}
+// size assumptions (rows counted in 28 bits): NOT proved to be preserved, see trusted list
+spec fn ms_small(ms: MultiState, extra: Option<Vec<LineType>>, w: nat) -> bool {
+    &&& ms.zombie_lines_count.0 <= 0x0FFF_FFFF
+    &&& (ms.draw_target.own() matches Some(x) ==> x.1.0 <= 0x0FFF_FFFF)
+    &&& small(ms.orphan_lines@) && (extra matches Some(v) ==> small(v@))
+    &&& zheight(ms.members@, ms.ordering@, w, ms.ordering@.len() as int) <= 0x0FFF_FFFF
+    &&& forall|i: int| 0 <= i < ms.members@.len() ==> lines_ok(mlines(#[trigger] ms.members@[i]))
+}
+spec fn only_llc_differs(a: ProgressDrawTarget, b: ProgressDrawTarget) -> bool {
+    match (a.kind, b.kind) {
+        (TargetKind::Term { term, last_line_count, rate_limiter, draw_state }, TargetKind::Term { term: t2, last_line_count: l2, rate_limiter: r2, draw_state: d2 }) => term == t2 && rate_limiter == r2 && draw_state == d2,
+        (TargetKind::TermLike { inner, last_line_count, rate_limiter, draw_state }, TargetKind::TermLike { inner: t2, last_line_count: l2, rate_limiter: r2, draw_state: d2 }) => inner == t2 && rate_limiter == r2 && draw_state == d2,
+        _ => a == b,
+    }
+}
+spec fn llc_of(a: ProgressDrawTarget) -> int { match a.own() { Some(x) => x.1.0 as int, None => 0 } }
+// the frame a MultiProgress hands to its terminal: printed lines first, then every member once, in visual order (C02)
+spec fn ms_frame(ms: MultiState, extra: Option<Vec<LineType>>) -> Seq<LineType> {
+    (match extra { Some(v) => v@, None => Seq::<LineType>::empty() }) + ms.orphan_lines@ + flat(ms.members@, ms.ordering@, ms.ordering@.len() as int)
+}
+spec fn has_text(ms: MultiState, extra: Option<Vec<LineType>>) -> bool { extra is Some || ms.orphan_lines@.len() > 0 }
+spec fn extra_seq(extra: Option<Vec<LineType>>) -> Seq<LineType> { match extra { Some(v) => v@, None => Seq::<LineType>::empty() } }
+
+// one call of MultiState::draw on a MultiProgress with its own terminal, by outcome; a1 = the target as
+// handed to drawable() (only its row count may differ from the stored one), mid = the target right after the draw
+spec fn ms_draw_case(a: MultiState, b: MultiState, force: bool, extra: Option<Vec<LineType>>, now: Instant, r: Result<(), IoError>,
+                     a1: ProgressDrawTarget, mid: ProgressDrawTarget, granted: bool) -> bool {
+    let z = zprefix(a.members@, a.ordering@, 0);
+    &&& only_llc_differs(a.draw_target, a1) && only_llc_differs(mid, b.draw_target) && b.wf() && b.alignment == a.alignment
+    &&& (a1.own() matches Some(x1) && (mid.own() matches Some(y) &&
+            req_case(a1, mid, force || a.orphan_lines@.len() > 0, now, ms_frame(a, extra), r, granted, x1, y)))   // C02: this frame, C05: orphan text forces the draw
+    &&& (granted ==> b.ordering@ == a.ordering@.subrange(z, a.ordering@.len() as int) && b.orphan_lines@.len() == 0      // C04: dropped bars at the head are reaped after being painted once more
+                     && b.members@.len() == a.members@.len()
+                     && forall|k: int| 0 <= k < a.members@.len() && b.ordering@.contains(k as usize) ==> b.members@[k] == a.members@[k])
+    &&& (!granted ==> b.ordering@ == a.ordering@ && b.orphan_lines@ == a.orphan_lines@ && b.members@ == a.members@)
+}
+spec fn ms_draw_post(a: MultiState, b: MultiState, force: bool, extra: Option<Vec<LineType>>, now: Instant, r: Result<(), IoError>) -> bool {
+    match a.draw_target.own() {
+        None => b.draw_target.same_kind(a.draw_target) && b.draw_target.ops() == a.draw_target.ops() && b.ordering@ == a.ordering@ && b.members@ == a.members@ && b.wf() && r.is_ok(),
+        Some(x) => exists|a1: ProgressDrawTarget, mid: ProgressDrawTarget, granted: bool| #[trigger] ms_draw_case(a, b, force, extra, now, r, a1, mid, granted),
+    }
+}
+// ---- row accounting (C03), in counts: llc = rows the next draw clears, zlc = rows of reaped zombies kept above them.
+// The managed region is the llc + zlc rows ending at the cursor row; everything above it is log.
+spec fn acct_log_untouched(a: MultiState, a1: ProgressDrawTarget) -> bool { llc_of(a1) <= llc_of(a.draw_target) + a.zombie_lines_count.0 }
+spec fn acct_text_below_log(a: MultiState, extra: Option<Vec<LineType>>, a1: ProgressDrawTarget) -> bool {
+    has_text(a, extra) ==> llc_of(a1) == llc_of(a.draw_target) + a.zombie_lines_count.0
+}
+spec fn acct_skip(a: MultiState, b: MultiState) -> bool { b.zombie_lines_count == a.zombie_lines_count && llc_of(b.draw_target) == llc_of(a.draw_target) }
+
+proof fn lemma_zprefix(members: Seq<MultiStateMember>, order: Seq<usize>, k: int, m: int)
+    requires 0 <= k <= m <= order.len(), forall|j: int| k <= j < m ==> members[order[j] as int].is_zombie, m == order.len() || !members[order[m] as int].is_zombie
+    ensures zprefix(members, order, k) == m
+    decreases m - k
+{ if k < m { lemma_zprefix(members, order, k + 1, m); } }
+proof fn lemma_zheight_mono(members: Seq<MultiStateMember>, order: Seq<usize>, w: nat, a: int, b: int)
+    requires a <= b
+    ensures zheight(members, order, w, a) <= zheight(members, order, w, b)
+    decreases b - a
+{ if a < b { lemma_zheight_mono(members, order, w, a, b - 1); } }
+proof fn lemma_flat_height(members: Seq<MultiStateMember>, order: Seq<usize>, w: nat, k: int)
+    requires 0 <= k <= order.len()
+    ensures hts(flat(members, order, k), w, flat(members, order, k).len() as int) == zheight(members, order, w, k)
+    decreases k
+{
+    if k > 0 {
+        lemma_flat_height(members, order, w, k - 1);
+        let a = flat(members, order, k - 1); let b = mlines(members[order[k - 1] as int]);
+        lemma_hts_concat(a, b, w, b.len() as int);
+    }
+}
+proof fn lemma_flat_ok(members: Seq<MultiStateMember>, order: Seq<usize>, k: int)
+    requires 0 <= k <= order.len(), forall|i: int| 0 <= i < order.len() ==> (#[trigger] order[i]) < members.len(),
+             forall|i: int| 0 <= i < members.len() ==> lines_ok(mlines(#[trigger] members[i]))
+    ensures lines_ok(flat(members, order, k))
+    decreases k
+{
+    if k > 0 {
+        lemma_flat_ok(members, order, k - 1);
+        let a = flat(members, order, k - 1); let b = mlines(members[order[k - 1] as int]);
+        assert(lines_ok(b));
+        assert forall|i: int| 0 <= i < (a + b).len() implies cols(line_str(#[trigger] (a + b)[i])) <= 0xFFFF_FFFF && !is_cr(line_str((a + b)[i])) by {
+            if i < a.len() { assert((a + b)[i] == a[i]); } else { assert((a + b)[i] == b[i - a.len()]); }
+        }
+    }
+}
+proof fn lemma_hts_ge_len(ls: Seq<LineType>, w: nat, k: int)
+    requires 0 <= k <= ls.len(), w >= 1
+    ensures hts(ls, w, k) >= k
+    decreases k
+{ if k > 0 { lemma_hts_ge_len(ls, w, k - 1); } }
+proof fn lemma_without_head(s: Seq<usize>)
+    requires no_dup(s), s.len() > 0
+    ensures without(s, s[0]) == s.subrange(1, s.len() as int)
+    decreases s.len()
+{
+    if s.len() == 1 {
+        assert(without(s.drop_last(), s[0]) =~= Seq::<usize>::empty());
+        assert(s.subrange(1, 1) =~= Seq::<usize>::empty());
+    } else {
+        let t = s.drop_last();
+        assert(no_dup(t));
+        lemma_without_head(t);
+        assert(t[0] == s[0]);
+        assert(s.last() != s[0]);
+        assert(t.subrange(1, t.len() as int).push(s.last()) =~= s.subrange(1, s.len() as int));
+    }
+}
+"""
+
+VLC_STUB = dict(file="src/draw_target.rs", container=None, name="visual_line_count", ret="r", stub=True,
+                sig_rewrites=[Rw("R10", r"&\[LineType\]", "&Vec<LineType>")],
+                requires=[("width", "width >= 1"), ("no-overflow", "hts(lines@, width as nat, lines.len() as int) <= usize::MAX")],
+                ensures=[("C19-visual-line-count", "r.0 as nat == hts(lines@, width as nat, lines.len() as int)")])
+
+MS_DRAW_RW = [
+    Rw("R8", r"debug_assert_eq!\(\s*extra_lines\.is_some\(\),\s*extra_lines\.as_ref\(\)\.map\(Vec::len\)\.unwrap_or_default\(\) > 0\s*\);", "assert(extra_lines matches Some(v) ==> v@.len() > 0);"),
+    Rw("R5", r"let mut reap_indices = vec!\[\];", "let mut reap_indices = Vec::<usize>::new();"),
+    RwFn("R3", r3_index_loops, count=3),
+    Rw("R5", r"member\s*\.draw_state\s*\.as_ref\(\)\s*\.map\(\|d\| d\.visual_line_count\(\.\., width\)\)\s*\.unwrap_or_default\(\)", "opt_line_count(&member.draw_state, width)"),
+    K.BOOL_OR_ASSIGN,
+    Rw("R16", r"draw_state\.alignment = self\.alignment;", "draw_state.state.alignment = self.alignment;"),
+    Rw("R5", r"draw_state\.lines\.extend_from_slice\(extra_lines\.as_slice\(\)\);", "extend_cloned(&mut draw_state.state.lines, extra_lines);"),
+    Rw("R16", r"draw_state\.lines\.append\(&mut self\.orphan_lines\);", "draw_state.state.lines.append(&mut self.orphan_lines);"),
+    Rw("R5", r"draw_state\.lines\.extend_from_slice\(&state\.lines\[\.\.\]\);", "extend_cloned(&mut draw_state.state.lines, &state.lines);"),
+    Rw("R9", r"drop\(draw_state\);", "draw_state.drop_impl();"),
+]
+
 INSERT_RW = [
     Rw("R5", r"self\.ordering\.iter\(\)\.position\(\|i\| \*i == after_idx\)", "vec_position(&self.ordering, after_idx)"),
     Rw("R5", r"self\.ordering\.iter\(\)\.position\(\|i\| \*i == before_idx\)", "vec_position(&self.ordering, before_idx)"),
@@ -141,7 +297,7 @@ UNIT = Unit(
     name="multi_state",
     properties=["C02", "C03", "C04", "C18"],
     prelude=["time", "gterm"],
-    rlimit=60,
+    rlimit=200,
     trusted=[
         "the draw-target layer (drawable, Drawable::*, DrawStateWrapper, draw_to_term) enters through its contracts: stubs here, verified in bar_draw / draw_to_term",
         "R5 helpers vec_position / vec_contains / vec_remove_value stand for iter().position(closure) / contains / retain(closure)",
@@ -248,5 +404,155 @@ UNIT = Unit(
                     ("C02-others-untouched", "final(self).members@.len() == old(self).members@.len() && forall|j: int| 0 <= j < old(self).members@.len() && j != idx ==> final(self).members@[j] == old(self).members@[j]"),
                     ("C02-slot-cleared", "member_is_default(final(self).members@[idx as int])"),
                     ("frame", "final(self).draw_target == old(self).draw_target && final(self).orphan_lines == old(self).orphan_lines && final(self).zombie_lines_count == old(self).zombie_lines_count && final(self).alignment == old(self).alignment")]),
+        ImplBlock("src/draw_target.rs", "AddAssign for VisualLines", D.VL_ADDASSIGN_SPEC),
+        Raw(MS_DRAW_SPEC), Raw(MS_ACCT_SPEC),
+        Fn(**VLC_STUB),
+        Fn("src/multi.rs", "MultiState", "width", ret="r",
+           requires=[("wf", "self.draw_target.wf()")],
+           ensures=[("def", "self.draw_target.own() matches Some(x) ==> r == Some(x.0.w as u16)"), ("hidden", "self.draw_target.kind is Hidden ==> r is None"),
+                    ("width-positive", "!(self.draw_target.kind is Multi) ==> (r matches Some(v) ==> v >= 1)")]),
+        Fn("src/multi.rs", "MultiState", "is_hidden", ret="r", ensures=[("def", "r == self.draw_target.hidden()")]),
+        Fn("src/multi.rs", "MultiState", "draw", ret="r", sig_rewrites=[K.IO_RESULT], rewrites=MS_DRAW_RW,
+           requires=[("wf", "old(self).wf()"), ("target-wf", "old(self).draw_target.wf()"), ("clock", "time_ok(now)"),
+                     ("extra-nonempty", "extra_lines matches Some(v) ==> v@.len() > 0"),
+                     ("own-target", "!(old(self).draw_target.kind is Multi)"),
+                     ("sizes", "forall|w: nat| 1 <= w <= 65535 ==> #[trigger] ms_small(*old(self), extra_lines, w)")],
+           ensures=[("wf", "final(self).wf()"),
+                    ("C02-C04-C05-C18-draw", "ms_draw_post(*old(self), *final(self), force_draw, extra_lines, now, r)")],
+           findings=[
+               ("C03-log-untouched",
+                "old(self).draw_target.own() is Some ==> exists|a1: ProgressDrawTarget, mid: ProgressDrawTarget, granted: bool| #[trigger] ms_draw_case(*old(self), *final(self), force_draw, extra_lines, now, r, a1, mid, granted) "
+                "&& (granted ==> acct_log_untouched(*old(self), a1))",
+                ["C03"], "a zombie reaped by this very draw is counted into the rows to clear while its rows are still part of the frame"),
+               ("C03-text-directly-below-log",
+                "old(self).draw_target.own() is Some ==> exists|a1: ProgressDrawTarget, mid: ProgressDrawTarget, granted: bool| #[trigger] ms_draw_case(*old(self), *final(self), force_draw, extra_lines, now, r, a1, mid, granted) "
+                "&& (granted ==> acct_text_below_log(*old(self), extra_lines, a1))",
+                ["C03"], "text printed through a member bar is painted below the static zombie rows, which are then accounted as if they were below the text"),
+               ("C03-skip-preserves-state",
+                "old(self).draw_target.own() is Some ==> exists|a1: ProgressDrawTarget, mid: ProgressDrawTarget, granted: bool| #[trigger] ms_draw_case(*old(self), *final(self), force_draw, extra_lines, now, r, a1, mid, granted) "
+                "&& (!granted ==> acct_skip(*old(self), *final(self)))",
+                ["C03"], "the zombie row count is increased before the rate limiter is asked; a skipped draw re-counts the same zombies"),
+           ],
+           proofs=[
+               (r"let mut reap_indices = Vec", "before", """        let ghost a0 = *self;
+        let ghost o0 = self.ordering@; let ghost m0 = self.members@; let ghost z0 = self.zombie_lines_count.0; let ghost orph0 = self.orphan_lines@;
+        let ghost w = width as nat; let ghost force_draw_in = force_draw;
+        let ghost has_own = self.draw_target.own() is Some;
+        proof { assert(1 <= w <= 65535); assert(ms_small(a0, extra_lines, w)); }"""),
+               (r"if extra_lines\.is_some\(\) \{", "before", """        proof { lemma_zprefix(m0, o0, 0, __n0 as int); }
+        let ghost z = __n0 as int;"""),
+               (r"let orphan_visual_line_count = ", "before", """        let ghost a1 = self.draw_target;
+        proof {
+            assert(only_llc_differs(a0.draw_target, a1));
+            lemma_flat_height(m0, o0, w, o0.len() as int);
+            lemma_flat_ok(m0, o0, o0.len() as int);
+            assert(small(orph0));
+            assert(hts(orph0, w, orph0.len() as int) <= 0x1FFF_FFFF);
+            lemma_hts_ge_len(orph0, w, orph0.len() as int);
+            assert(hts(orph0, w, 0) == 0);
+            lemma_zheight_mono(m0, o0, w, z, o0.len() as int);
+            // rows handed to the clear loop: bounded
+            assert(llc_of(a1) <= llc_of(a0.draw_target) + z0 + zheight(m0, o0, w, z));
+            assert(llc_of(a1) <= 0x2FFF_FFFD);
+        }"""),
+               (r"Some\(drawable\) => drawable,\n\s*None => return Ok\(\(\)\),", "at", """Some(drawable) => drawable,
+            None => {
+                proof {
+                    // skipped (rate limited) or no terminal of its own: nothing reaches the terminal
+                    if has_own {
+                        let x1 = a1.own().unwrap(); let y = self.draw_target.own().unwrap();
+                        assert(req_case(a1, self.draw_target, force_draw, now, ms_frame(a0, extra_lines), Ok(()), false, x1, y));
+                        assert(ms_draw_case(a0, *self, force_draw_in, extra_lines, now, Ok(()), a1, self.draw_target, false));
+                    }
+                }
+                return Ok(());
+            }"""),
+               (r"draw_state\.drop_impl\(\);", "before", """        proof {
+            let e = extra_seq(extra_lines);
+            let fl = flat(m0, o0, o0.len() as int);
+            assert(draw_state.state.lines@ =~= ms_frame(a0, extra_lines));
+            // size of the frame: needed by draw_to_term's precondition
+            lemma_hts_concat(e + orph0, fl, w, fl.len() as int);
+            lemma_hts_concat(e, orph0, w, orph0.len() as int);
+            lemma_small_empty_line();
+            if extra_lines is None { assert(small(e)); }
+            assert(hts(e, w, e.len() as int) <= 0x1FFF_FFFF);
+            assert forall|i: int| 0 <= i < (e + orph0 + fl).len() implies cols(line_str(#[trigger] (e + orph0 + fl)[i])) <= 0xFFFF_FFFF && !is_cr(line_str((e + orph0 + fl)[i])) by {
+                if i < e.len() { assert((e + orph0 + fl)[i] == e[i]); }
+                else if i < e.len() + orph0.len() { assert((e + orph0 + fl)[i] == orph0[i - e.len()]); }
+                else { assert((e + orph0 + fl)[i] == fl[i - e.len() - orph0.len()]); }
+            }
+        }"""),
+               (r"let drawable = drawable\.draw\(\);", "at", """let ghost dsnap = drawable;
+        let drawable = drawable.draw();
+        let ghost mid = self.draw_target;
+        let ghost rres = drawable;
+        proof {
+            let want = ms_frame(a0, extra_lines);
+            let f = force_draw;
+            match dsnap {
+                Drawable::Term { term: t, last_line_count: l, draw_state: d } => {
+                    let x1 = a1.own().unwrap(); let y = mid.own().unwrap();
+                    assert(d.lines@ == want);
+                    assert(dtt_post(*d, *final(d), t@, final(t)@, *l, *final(l), rres));
+                    assert(x1.0 == t@ && x1.1 == *l);
+                    assert(y.0 == final(t)@ && y.1 == *final(l) && y.2 == *final(d));
+                    assert(req_case(a1, mid, f, now, want, rres, true, x1, y));
+                }
+                Drawable::TermLike { term_like: t, last_line_count: l, draw_state: d } => {
+                    let x1 = a1.own().unwrap(); let y = mid.own().unwrap();
+                    assert(d.lines@ == want);
+                    assert(dtt_post(*d, *final(d), t@, final(t)@, *l, *final(l), rres));
+                    assert(x1.0 == t@ && x1.1 == *l);
+                    assert(y.0 == final(t)@ && y.1 == *final(l) && y.2 == *final(d));
+                    assert(req_case(a1, mid, f, now, want, rres, true, x1, y));
+                }
+                _ => { assert(false); }
+            }
+        }"""),
+               (r"(?m)^\s*drawable\s*$", "before", """        proof {
+            assert(only_llc_differs(mid, self.draw_target));
+            assert(self.ordering@ == o0.subrange(z, o0.len() as int));
+            assert(ms_draw_case(a0, *self, force_draw_in, extra_lines, now, rres, a1, mid, true));
+        }"""),
+           ],
+           loops={
+               0: {"invariant": [
+                       "self.ordering@ == o0", "self.members@ == m0", "self.draw_target == a0.draw_target", "self.orphan_lines@ == orph0", "self.alignment == a0.alignment",
+                       "self.free_set@ == a0.free_set@", "a0.wf()", "self.wf()", "a0.ordering@ == o0", "a0.members@ == m0", "width as nat == w", "1 <= w <= 65535",
+                       "__n0 <= o0.len()", "forall|j: int| 0 <= j < __n0 ==> m0[o0[j] as int].is_zombie",
+                       "reap_indices@ == o0.subrange(0, __n0 as int)",
+                       "adjust.0 as nat == zheight(m0, o0, w, __n0 as int)",
+                       "self.zombie_lines_count.0 == z0 + adjust.0",
+                       "z0 <= 0x0FFF_FFFF", "zheight(m0, o0, w, o0.len() as int) <= 0x0FFF_FFFF"],
+                   "ensures": ["__n0 <= o0.len()", "__n0 == o0.len() || !m0[o0[__n0 as int] as int].is_zombie"],
+                   "decreases": "o0.len() - __n0",
+                   "body_start": "            proof { lemma_zheight_mono(m0, o0, w, __n0 as int + 1, o0.len() as int); assert(o0[__n0 as int] < m0.len()); }",
+                   "body_end": "            proof { assert(reap_indices@ =~= o0.subrange(0, __n0 as int)); }"},
+               1: {"invariant": [
+                       "self.ordering@ == o0", "self.members@ == m0", "__n1 <= o0.len()", "a0.wf()", "a0.ordering@ == o0", "a0.members@ == m0",
+                       "draw_state.state.lines@ == extra_seq(extra_lines) + orph0 + flat(m0, o0, __n1 as int)",
+                       "draw_state.orphan_lines is None"],
+                   "decreases": "o0.len() - __n1",
+                   "body_start": "            proof { assert(o0[__n1 as int] < m0.len()); }"},
+               2: {"invariant": [
+                       "__n2 <= reap_indices@.len()", "reap_indices@ == o0.subrange(0, z)", "0 <= z <= o0.len()", "self.wf()", "a0.wf()",
+                       "self.ordering@ == o0.subrange(__n2 as int, o0.len() as int)",
+                       "self.members@.len() == m0.len()",
+                       "forall|k: int| 0 <= k < m0.len() && self.ordering@.contains(k as usize) ==> self.members@[k] == m0[k]",
+                       "self.draw_target == mid", "self.orphan_lines@.len() == 0", "self.alignment == a0.alignment"],
+                   "decreases": "reap_indices@.len() - __n2",
+                   "body_start": """            proof {
+                let cur = self.ordering@;
+                assert(cur.len() > 0 && cur[0] == o0[__n2 as int]);
+                assert(o0[__n2 as int] < m0.len());
+                lemma_without_head(cur);
+                assert(cur.subrange(1, cur.len() as int) =~= o0.subrange(__n2 as int + 1, o0.len() as int));
+            }"""},
+           }),
     ],
 )
+
+# the three finding clauses are existentials that Z3 refutes only by exhausting its resources:
+# the variants run gets a small limit (running out of resources counts as "not verified")
+UNIT.variants_rlimit = 10
